@@ -14,7 +14,12 @@ REQUIRED = ['clip1_spec', 'clip_spec', 'clip_mem', 'clip_id_of_mem', 'clip_eq_se
             'iptw_weight_le_sym', 'gpair_le', 'stoch_cf_le', 'ipmw_ipsw_le', 'probability_bounds_float_generated',
             'probability_bounds_pair_generated', 'probability_bounds_vector_generated',
             # Props/C17_Sites.lean: the regenerated call sites are the use-site models
-            'ipsw_sampling_generated', 'snm_missing_generated', 'sites_unreached_generated']
+            'ipsw_sampling_generated', 'snm_missing_generated', 'sites_unreached_generated',
+            # Props/C17_BoundSites.lean: every call site of probability_bounds as regenerated from /repo
+            'iptw_calculator_site_generated', 'iptw_calculator_callers', 'exposure_sites_generated',
+            'missing_sites_generated', 'outcome_sites_generated', 'stochastic_exposure_site_generated',
+            'crossfit_sites_generated', 'ipmw_sites_generated', 'ipsw_site_generated', 'bound_sites_unreached_generated',
+            'sites_in_range_generated']
 RULE = ('helper: every container type (list, tuple, ndarray float64/float32/int, Series with default and shuffled index, '
         'read-only ndarray, read-only view of a Series, strided view, frombuffer array) x every bound form (valid floats, '
         'valid pairs as list/tuple/ndarray/Series incl. lo=hi, ints in a pair, >2 entries; invalid: float <0 or >1, '
@@ -699,21 +704,33 @@ def bl(xs):
     return ','.join('1' if x == 1 else '0' for x in xs) or '[]'
 
 
+GEN_MODEL = {'agree': True}      # did every reply of the regenerated sites agree (bitwise) with the hand-written model?
+
+
 def model_expect(drv, site, cfg, U, bound):
-    """ask the Lean model what the bounded run must show, given the unbounded run's raw probabilities"""
+    """ask the Lean side what the bounded run must show, given the unbounded run's raw probabilities.  Every use site is
+    evaluated by the code REGENERATED from the estimator method (Gen/BoundSites.lean, `gsite=`); the reply also says
+    whether the hand-written use-site function of Model/Bounds.lean gives the same doubles (`model=1`)."""
     spec, falsy, lo, hi = spec_of(bound)
     base = dict(spec=spec, falsy='1' if falsy else '0')
     exp = {}
+
+    def ask(**kw):
+        rep, _ = drv.ask('bw', **kw, **base)
+        if rep['status'] == 'ok' and rep.get('model', '1') != '1':
+            GEN_MODEL['agree'] = False
+            rep['status'] = 'generated-site-differs-from-model'
+        return rep
     if site == 'IPTW.treatment_model':
         n = U['p']['numer'] if cfg['stab'] else np.ones(len(U['p']['denom']))
-        rep, _ = drv.ask('bw', kind='iptw', stab=int(cfg['stab']), std=cfg['std'], a=bl(U['aux']['a']), n=fl(n),
-                         d=fl(U['p']['denom']), **base)
+        rep = ask(kind='iptw', gsite='iptw_calculator', caller='IPTW', stab=int(cfg['stab']), std=cfg['std'],
+                  a=bl(U['aux']['a']), n=fl(n), d=fl(U['p']['denom']))
         if rep['status'] == 'ok':
             exp = {'p.denom': dec_list(rep['d'], unfx), 'w.iptw': dec_list(rep['w'], unfx),
                    'aux.numer_col': dec_list(rep['n'], unfx)}
     elif site in ('IPTW.missing_model', 'GEstimationSNM.missing_model'):
         obs = U['aux']['obs']
-        rep, _ = drv.ask('bw', kind='ipmw', n=fl(U['aux']['n_ref'][obs]), d=fl(U['aux']['d_ref'][obs]), **base)
+        rep = ask(kind='ipmw', gsite=site.replace('.', '_'), n=fl(U['aux']['n_ref'][obs]), d=fl(U['aux']['d_ref'][obs]))
         if rep['status'] == 'ok' and site == 'GEstimationSNM.missing_model':
             # the per-row lines regenerated from GEstimationSNM.missing_model (Gen/Sites.lean) on the same raw
             # probabilities: identical to the hand-written use-site model (Props/C17_Sites.snm_missing_generated)
@@ -726,26 +743,26 @@ def model_expect(drv, site, cfg, U, bound):
             w[obs] = dec_list(rep['w'], unfx)
             exp = {'w.ipmw': w}
     elif site in ('AIPTW', 'TMLE') and cfg['which'] == 'exposure':
-        rep, _ = drv.ask('bw', kind='gpair', p=fl(U['p']['g1']), **base)
+        rep = ask(kind='gpair', gsite=site + '_exposure_model', p=fl(U['p']['g1']))
         if rep['status'] == 'ok':
             exp = {'p.g1': dec_list(rep['g1'], unfx), 'p.g0': dec_list(rep['g0'], unfx)}
     elif site in ('AIPTW', 'TMLE', 'StochasticTMLE') and cfg['which'] in ('missing', 'outcome'):
         for k, v in U['p'].items():
             ok = ~np.isnan(v)
-            rep, _ = drv.ask('bw', kind='clip', p=fl(v[ok]), **base)
+            rep = ask(kind='clip', gsite='%s_%s_model' % (site, cfg['which']), comp=k, p=fl(v[ok]))
             if rep['status'] != 'ok':
                 return rep, {}
             e = np.full(len(v), np.nan)
             e[ok] = dec_list(rep['p'], unfx)
             exp['p.' + k] = e
     elif site == 'StochasticTMLE':
-        rep, _ = drv.ask('bw', kind='stoch', a=bl(U['aux']['a']), p=fl(U['aux']['pred_ref']), **base)
+        rep = ask(kind='stoch', gsite='StochasticTMLE_exposure_model', a=bl(U['aux']['a']), p=fl(U['aux']['pred_ref']))
         if rep['status'] == 'ok':
             exp = {'p.den': dec_list(rep['den'], unfx)}
     elif site == 'IPSW.sampling_model':
         n = U['p']['numer'] if cfg['stab'] else np.ones(len(U['p']['denom']))
-        rep, _ = drv.ask('bw', kind='ipsw', gen=int(cfg['gen']), stab=int(cfg['stab']), n=fl(n), d=fl(U['p']['denom']),
-                         **base)
+        rep = ask(kind='ipsw', gsite='IPSW_sampling_model', gen=int(cfg['gen']), stab=int(cfg['stab']), n=fl(n),
+                  d=fl(U['p']['denom']))
         if rep['status'] == 'ok':
             # the per-row lines regenerated from IPSW.sampling_model (Gen/Sites.lean) on the same raw probabilities:
             # identical to the hand-written use-site model (Props/C17_Sites.ipsw_sampling_generated)
@@ -758,8 +775,8 @@ def model_expect(drv, site, cfg, U, bound):
                    'aux.numer_col': dec_list(rep['n'], unfx)}
     elif site == 'treatment_model(generalize)':
         obs = U['aux']['obs']
-        rep, _ = drv.ask('bw', kind='iptw', stab=int(cfg['stab']), std='population', a=bl(U['aux']['a'][obs]),
-                         n=fl(U['aux']['n_ref'][obs]), d=fl(U['aux']['d_ref'][obs]), **base)
+        rep = ask(kind='iptw', gsite='iptw_calculator', caller=cfg['cls'], stab=int(cfg['stab']), std='population',
+                  a=bl(U['aux']['a'][obs]), n=fl(U['aux']['n_ref'][obs]), d=fl(U['aux']['d_ref'][obs]))
         if rep['status'] == 'ok':
             w = np.full(len(obs), np.nan)
             w[obs] = dec_list(rep['w'], unfx)
@@ -767,7 +784,7 @@ def model_expect(drv, site, cfg, U, bound):
     elif site == 'crossfit':
         for k, v in U['p'].items():
             if k.startswith('pa1_'):
-                rep, _ = drv.ask('bw', kind='cf', p=fl(v), **base)
+                rep = ask(kind='cf', gsite=cfg['cls'], p=fl(v))
                 if rep['status'] != 'ok':
                     return rep, {}
                 exp['p.' + k] = dec_list(rep['pa1'], unfx)
@@ -909,7 +926,8 @@ def estimator_case(chk, drv, site, runner, cfg, data, U, kind, bound, seed_note)
                 good = bool(np.allclose(got, arr(v), rtol=1e-10, atol=0, equal_nan=True))
             if not good:
                 bad.append(k)
-        chk.k(ok and not bad, 'bw: model of %s vs implementation (%s)' % (site, ','.join(bad) or 'status'),
+        chk.k(ok and not bad, 'bw: the lines of %s regenerated from the source (Gen/BoundSites.lean) vs implementation (%s)'
+              % (site, ','.join(bad) or 'status'),
               {'case': case, 'model_status': rep.get('status'), 'mismatch': bad})
     return B
 
